@@ -98,7 +98,7 @@ func (o *oracle) delPrefix(fp string) {
 // expect returns what the contract says the answer to op must be.
 func (o *oracle) expect(f []string) string {
 	num := func(i int) int { n, _ := strconv.Atoi(f[i]); return n }
-	bs := func(i int) string { return string(hx.UnHex(f[i])) }
+	bs := func(i int) string { return string(unhexTok(f[i])) }
 	switch f[0] {
 	case "spy":
 		o.spy = true
@@ -373,7 +373,15 @@ func (w *world) exec(f []string) string {
 	// instead of copying it writes into memory it shares with the caller (and with whoever else appended to the same slice)
 	var handed [][]byte
 	buf := func(i int) []byte {
-		b := withSpare(hx.UnHex(f[i]), 8)
+		if f[i] == "~" { // a nil slice: what `var k []byte` / a missing argument gives the callee
+			w.counts["nil-argument:"+f[0]+fmt.Sprintf(":arg%d", i)]++
+
+			return nil
+		}
+		if f[i] == "-" {
+			w.counts["empty-non-nil-argument:"+f[0]+fmt.Sprintf(":arg%d", i)]++
+		}
+		b := withSpare(unhexTok(f[i]), 8)
 		handed = append(handed, b)
 
 		return b
@@ -610,6 +618,35 @@ func (w *world) exec(f []string) string {
 var alphabet = []byte{0x00, 0x01, 0x7f, 0xff}
 var valAlphabet = []byte{0x00, 0x01, 0x7f, 0xff, 0xa5, 0x5a, 0x10}
 
+// unhexTok decodes a byte-string token of an op line: hex, `-` = empty (non-nil), `~` = nil.
+func unhexTok(s string) []byte {
+	if s == "~" {
+		return nil
+	}
+
+	return hx.UnHex(s)
+}
+
+// nilify turns about half of the empty byte-string arguments of a generated history (keys, prefixes, realms, values - of the
+// direct calls and of the batch calls alike) into nil slices: the contract does not distinguish nil from empty, the code
+// must not either (a nil value as a deletion marker, `m[k] != nil` as the membership test, ...).
+func nilify(rng *hx.Rng, ops []string) []string {
+	for i, op := range ops {
+		if !strings.Contains(op, " -") || strings.HasPrefix(op, "copy") {
+			continue
+		}
+		f := strings.Fields(op)
+		for j := range f {
+			if f[j] == "-" && rng.Bool() {
+				f[j] = "~"
+			}
+		}
+		ops[i] = strings.Join(f, " ")
+	}
+
+	return ops
+}
+
 func genBytes(rng *hx.Rng, maxLen int, alpha []byte) string {
 	n := rng.Intn(maxLen + 1)
 	b := make([]byte, n)
@@ -724,7 +761,19 @@ func genCase(rng *hx.Rng, n int) []string {
 			for try := 0; try < 4; try++ {
 				fk := hx.Pick(rng, g.pool)
 				if strings.HasPrefix(fk, realm) {
-					return hx.Hex([]byte(fk[len(realm):]))
+					k := []byte(fk[len(realm):])
+					// now and then a NEIGHBOUR of a written key: the key cut by its last byte / extended by one byte, so that keys
+					// which are prefixes of one another (down to the zero-length key) meet in one view
+					switch rng.Intn(12) {
+					case 0:
+						if len(k) > 0 {
+							k = k[:len(k)-1]
+						}
+					case 1:
+						k = append(append([]byte{}, k...), hx.Pick(rng, alphabet))
+					}
+
+					return hx.Hex(k)
 				}
 			}
 		}
@@ -1261,6 +1310,15 @@ var corpus = [][]string{
 	// 0xff-terminated realm and keys; empty realm; empty key and value
 	{"view 1 0 ff abs", "view 2 0 ffff abs", "set 1 ff 01", "set 2 - -", "set 0 ff 02", "set 0 - 7f", "get 2 -", "has 1 ff",
 		"iter 1 - bwd 0", "iter 0 ff fwd 2", "delp 0 ffff", "iter 0 - bwd 0", "get 0 -", "clear 0", "iter 0 - fwd 0"},
+	// nil vs empty (`~` = nil slice, `-` = empty non-nil slice) for keys, prefixes, realms and values, on the direct calls and in
+	// batches, through a wrapper stack: an entry with a zero-length value exists (Has, Get, Iterate, IterateKeys agree), a
+	// zero-length key is a key, a batch Set of a nil value is a Set, keys that are prefixes of one another stay apart
+	{"wrap 1 0 f", "wrap 2 1 d", "view 3 2 ~ ext", "view 4 3 - abs", "view 5 4 01 ext", "set 3 ~ ~", "has 3 -", "get 4 ~", "iterk 0 ~ fwd 0",
+		"set 5 - -", "has 5 ~", "get 5 -", "set 5 01 ~", "set 5 0101 -", "has 5 01", "has 5 0101", "has 5 010101", "iter 5 ~ bwd 0",
+		"iter 0 01 fwd 0", "batch 9 5", "bset 9 ~ 05", "bset 9 01 ~", "bset 9 02 ~", "bdel 9 0101", "bset 9 03 -", "bdel 9 03", "bset 9 03 ~",
+		"commit 9", "has 5 02", "get 5 02", "has 5 03", "get 5 ~", "has 5 0101", "iter 0 - fwd 0", "iterk 5 01 bwd 0", "bdel 9 ~", "bset 9 - ~",
+		"commitf 9", "has 5 -", "get 5 ~", "del 4 ~", "has 3 ~", "iter 0 ~ fwd 0", "delp 5 ~", "iter 0 - fwd 0", "batch 8 0", "bset 8 ~ ~",
+		"commitf 8", "has 0 ~", "iterk 0 ~ def 0", "delp 0 ~", "has 0 -", "iterk 0 - def 0"},
 	// batch mixing Set and Delete of one key across realms; re-commit; cancel
 	{"view 1 0 01 abs", "view 2 1 7f ext", "set 0 017f00 aa", "batch 9 1", "bset 9 7f00 01", "bdel 9 7f00", "bset 9 7f01 02",
 		"bdel 9 00", "bset 9 00 03", "iter 0 - fwd 0", "commit 9", "iter 0 - fwd 0", "set 2 00 ee", "commit 9", "iter 0 - fwd 0",
@@ -1354,9 +1412,9 @@ func main() {
 	for i := 0; i < n; i++ {
 		rng, sub := r.Rng.Fork()
 		if i%2 == 1 {
-			runCase(r, sub, genPairCase(rng)) // two store trees with Copy / CopyBatched between them
+			runCase(r, sub, nilify(rng, genPairCase(rng))) // two store trees with Copy / CopyBatched between them
 		} else {
-			runCase(r, sub, genCase(rng, 40))
+			runCase(r, sub, nilify(rng, genCase(rng, 40)))
 		}
 	}
 	r.Finish()
